@@ -15,6 +15,7 @@
 //!   {"k":"tokens","id":..,"src":".."}            -> normalised token string of src
 //!   {"k":"atoms","id":..,"src":"where .."}       -> where-clause atoms of src
 //!   {"k":"items","id":..,"src":".."}             -> projection of an arbitrary file (same as expand's)
+mod mutate;
 use proc_macro2::TokenStream;
 use quote::ToTokens;
 use rayon::prelude::*;
@@ -32,6 +33,27 @@ fn h(s: &str) -> String {
 
 fn ts(x: &impl ToTokens) -> String {
     x.to_token_stream().to_string()
+}
+
+/// token sequence with punctuation spacing erased: one entry per atomic token
+fn flat(t: TokenStream, out: &mut Vec<String>) {
+    for tt in t {
+        match tt {
+            proc_macro2::TokenTree::Group(g) => {
+                let (o, c) = match g.delimiter() {
+                    proc_macro2::Delimiter::Parenthesis => ("(", ")"),
+                    proc_macro2::Delimiter::Brace => ("{", "}"),
+                    proc_macro2::Delimiter::Bracket => ("[", "]"),
+                    proc_macro2::Delimiter::None => ("", ""),
+                };
+                out.push(o.to_string());
+                flat(g.stream(), out);
+                out.push(c.to_string());
+            }
+            proc_macro2::TokenTree::Punct(p) => out.push(p.as_char().to_string()),
+            other => out.push(other.to_string()),
+        }
+    }
 }
 
 fn atoms_of(w: Option<&syn::WhereClause>) -> Vec<String> {
@@ -69,6 +91,42 @@ fn atoms_of(w: Option<&syn::WhereClause>) -> Vec<String> {
 
 fn lit_str_of(tokens: &TokenStream) -> Option<String> {
     syn::parse2::<syn::LitStr>(tokens.clone()).ok().map(|l| l.value())
+}
+
+/// attributes at every position of a struct / enum (type, variants, fields) as token strings, and the
+/// item with every attribute removed ("skeleton")
+fn attrs_tree(it: &syn::Item) -> Option<(Vec<Vec<String>>, String)> {
+    fn strs(a: &[syn::Attribute]) -> Vec<String> {
+        a.iter().map(ts).collect()
+    }
+    let mut pos: Vec<Vec<String>> = Vec::new();
+    match it {
+        syn::Item::Struct(s) => {
+            let mut s = s.clone();
+            pos.push(strs(&s.attrs));
+            s.attrs.clear();
+            for f in s.fields.iter_mut() {
+                pos.push(strs(&f.attrs));
+                f.attrs.clear();
+            }
+            Some((pos, ts(&s)))
+        }
+        syn::Item::Enum(e) => {
+            let mut e = e.clone();
+            pos.push(strs(&e.attrs));
+            e.attrs.clear();
+            for v in e.variants.iter_mut() {
+                pos.push(strs(&v.attrs));
+                v.attrs.clear();
+                for f in v.fields.iter_mut() {
+                    pos.push(strs(&f.attrs));
+                    f.attrs.clear();
+                }
+            }
+            Some((pos, ts(&e)))
+        }
+        _ => None,
+    }
 }
 
 fn project_item(it: &syn::Item, want_tokens: bool) -> Value {
@@ -143,6 +201,10 @@ fn project_item(it: &syn::Item, want_tokens: bool) -> Value {
         _ => json!({"kind": "other"}),
     };
     v["hash"] = json!(h(&tokens));
+    if let Some((pos, skel)) = attrs_tree(it) {
+        v["attr_pos"] = json!(pos);
+        v["skeleton"] = json!(h(&skel));
+    }
     if want_tokens {
         v["tokens"] = json!(tokens);
     }
@@ -179,7 +241,11 @@ fn handle(line: &str) -> Value {
         "tokens" => {
             let src = req["src"].as_str().unwrap_or("");
             match TokenStream::from_str(src) {
-                Ok(t) => json!({"id": id, "tokens": t.to_string(), "hash": h(&t.to_string())}),
+                Ok(t) => {
+                    let mut f = Vec::new();
+                    flat(t.clone(), &mut f);
+                    json!({"id": id, "tokens": t.to_string(), "hash": h(&t.to_string()), "flat": h(&f.join(" "))})
+                }
                 Err(e) => json!({"id": id, "lex_error": e.to_string()}),
             }
         }
@@ -192,6 +258,32 @@ fn handle(line: &str) -> Value {
                 Ok(w) => json!({"id": id, "atoms": atoms_of(Some(&w))}),
                 Err(e) => json!({"id": id, "parse_error": e.to_string()}),
             }
+        }
+        "corpus" => {
+            // {"k":"corpus","path":..} or {"k":"corpus","src":..}: every struct/enum/impl carrying #[derive_ex(..)]
+            let src = match req["path"].as_str() {
+                Some(p) => std::fs::read_to_string(p).unwrap_or_default(),
+                None => req["src"].as_str().unwrap_or("").to_string(),
+            };
+            let c = mutate::corpus_of(&src);
+            json!({"id": id, "corpus": c.iter().map(|(a, i)| json!({"attr": a, "item": i})).collect::<Vec<_>>()})
+        }
+        "mutate" => {
+            // {"k":"mutate","attr":..,"item":..,"seed":..,"steps":..,"donors":[{attr,item}..]}
+            let attr = req["attr"].as_str().unwrap_or("").to_string();
+            let item = req["item"].as_str().unwrap_or("").to_string();
+            let seed = req["seed"].as_u64().unwrap_or(1) | 1;
+            let steps = req["steps"].as_u64().unwrap_or(1) as usize;
+            let donors: Vec<(String, String)> = req["donors"].as_array().map(|a| a.iter().map(|d| (d["attr"].as_str().unwrap_or("").to_string(), d["item"].as_str().unwrap_or("").to_string())).collect()).unwrap_or_default();
+            let mut rng = mutate::Rng(seed.wrapping_mul(0x9E3779B97F4A7C15) | 1);
+            let (mut a, mut i) = (attr, item);
+            for _ in 0..steps {
+                if let Some((na, ni)) = mutate::mutate(&a, &i, &donors, &mut rng) {
+                    a = na;
+                    i = ni;
+                }
+            }
+            json!({"id": id, "attr": a, "item": i})
         }
         "items" => {
             let src = req["src"].as_str().unwrap_or("");
